@@ -240,7 +240,9 @@ def answerMyers (n m bits : String) : String :=
     let arr := bits.toList.toArray
     let eq := fun i j => arr.getD (i * m + j) '0' == '1'
     let rs := myersDiff n m eq
-    s!"{showRanges rs}\tvalid={b2s (validScript eq n m rs)} norm={b2s (normalised rs)}"
+    let diag := n == m && (List.range n).all (fun i => eq i i)
+    let ident := if diag then b2s (rs == [⟨0, n, 0, n⟩]) else "-"
+    s!"{showRanges rs}\tvalid={b2s (validScript eq n m rs)} norm={b2s (normalised rs)} ident={ident}"
   | _, _ => "bad-input"
 
 def answer (line : String) : String :=
